@@ -39,6 +39,7 @@ type harness struct {
 	// listDefectsAbsent: the canary (calibrate) found neither list defect in this build, so a trigger in
 	// the environment form of a table entry does not make the entry undecidable
 	listDefectsAbsent bool
+	sampled           int
 }
 
 // calibrate loads a tiny catalogue completely from the environment many times: several variables per
@@ -442,7 +443,7 @@ func (h *harness) explainLoadError(fileYAML string, env []envLeaf, obs *outcome,
 	for _, l := range obs.errLines {
 		missing[l] = true
 	}
-	budget := 80
+	budget := 150
 	try := func(keep func(e envLeaf) bool) {
 		if budget <= 0 || len(missing) == 0 {
 			return
@@ -466,10 +467,23 @@ func (h *harness) explainLoadError(fileYAML string, env []envLeaf, obs *outcome,
 		}
 		return ""
 	}
-	for _, s := range env {
-		if g := inGroup(s); g != "" {
-			name := s.Var.Name
-			try(func(e envLeaf) bool { return inGroup(e) == "" || e.Var.Name == name })
+	// lists named by the error first, the others afterwards (within the budget)
+	for pass := 0; pass < 2; pass++ {
+		for _, s := range env {
+			g := inGroup(s)
+			if g == "" {
+				continue
+			}
+			named := false
+			for l := range missing {
+				if strings.Contains(l, "'"+g+"'") {
+					named = true
+				}
+			}
+			if named == (pass == 0) {
+				name := s.Var.Name
+				try(func(e envLeaf) bool { return inGroup(e) == "" || e.Var.Name == name })
+			}
 		}
 	}
 	if len(missing) == 0 {
@@ -713,8 +727,8 @@ func (h *harness) runCase(id string, tree map[string]any, light bool, rng *rand.
 		if len(outcomes) > 1 {
 			r.Count("plans_with_order_dependent_result", 1)
 		}
-		if r.Counter("sampled") < 4 && len(p.file) > 0 && t.none() && len(p.env) >= 3 {
-			r.Count("sampled", 1)
+		if h.sampled < 4 && len(p.file) > 0 && t.none() && len(p.env) >= 3 && len(p.env) <= 12 {
+			h.sampled++
 			r.Sample(map[string]any{"case": id, "plan": pl.name, "file_yaml": fileYAML, "environment": envIn(orders(len(p.env), 1, rng)[0], p.env),
 				"class": class, "result": "equal to the all-file load in every order"})
 		}
